@@ -3,7 +3,7 @@
    model of Torrent.read_stream; which exceptions read_stream catches and maps
    is regenerated from /repo's source (Extracted.ex_read_*_catches), so dropping
    an exception from an except clause changes these theorems' subject. *)
-From Torf Require Import Base Sexp Bencode PyVal Extracted Convert Validate Export BencodeProofs ConvertProofs.
+From Torf Require Import Base Sexp Bencode PyVal Extracted Convert Validate Export BencodeProofs ConvertProofs ReadDumpProofs.
 Open Scope Z_scope.
 
 (* the decoder only ever fails with DecodingError, ValueError or OverflowError *)
@@ -24,6 +24,16 @@ Theorem C08_read_valid : forall is_url x md,
   read_stream is_url true x = Ok md -> validate is_url FSNone md = Ok tt.
 Proof. exact read_stream_validated. Qed.
 Print Assumptions C08_read_valid.
+
+(* dumping (without validation) ANY torrent that was read without validation succeeds or raises the
+   metainfo error: in particular what the decoder accepted is never nested too deeply for the encoder
+   (the depth accounting of both is part of the model: a list level costs one unit, a dictionary level
+   two, in both directions), and read_stream leaves nothing unconvertible behind (pieces are kept raw
+   only when they are a byte string -- Extracted.ex_read_strips_any_pieces, regenerated from the source) *)
+Theorem C08_read_then_dump_typed : forall is_url x md,
+  read_stream is_url false x = Ok md -> ok_or_meta (dump is_url FSNone false md).
+Proof. exact read_then_dump_typed. Qed.
+Print Assumptions C08_read_then_dump_typed.
 
 (* non-vacuity and the formerly failing inputs *)
 Example C08_examples :
